@@ -89,7 +89,7 @@ class Machine:
             'cmp_frac': 0, 'cmp_nonzero_count': 0, 'print_char': 0, 'print_num': 0, 'print_frac': 0,
             'print_nan': 0, 'nan_pops': 0, 'nan_dropped_on_empty': 0, 'multi_operand': 0,
             'fractions_made': 0, 'negatives_made': 0, 'push_stack0': 0, 'heart_after_heart': 0, 'jump_back_over_first_read': 0, 'heart_return_to_self': 0, 'forward_jumps': 0, 'pops_of_own_values_from_stack0': 0,
-            'jump_from_first_command': 0, 'heart_return_to_first_command': 0, 'two_labels_one_command': 0, 'jump_to_multi_label_command_after_read': 0,
+            'nan_onto_stack0_after_read': 0, 'jump_from_first_command': 0, 'heart_return_to_first_command': 0, 'two_labels_one_command': 0, 'jump_to_multi_label_command_after_read': 0,
         }
         self.cmp_log = None   # optional list of (value, count, op, went_left)
         self.last_jump_was_heart = False
@@ -171,6 +171,8 @@ class Machine:
                 s.append(v)
                 if i == 0:
                     self.st['push_stack0'] += 1
+                    if v is NAN and self.li > 0:
+                        self.st['nan_onto_stack0_after_read'] += 1
                 if len(s) > self.lim.stack_len:
                     raise NotAdmitted('stack length cap')
             else:
